@@ -1019,6 +1019,29 @@ namespace bloch::runtime {
                 auto baseNode = nodeByName.find(baseName);
                 if (baseNode != nodeByName.end())
                     populate(baseNode->second);
+                // A generic base is instantiated right below and copies the layout of the
+                // template's own base chain: populate the plain classes at the end of that chain
+                // first.
+                NamedType* generic = dynamic_cast<NamedType*>(clsNode->baseType.get());
+                while (generic && !generic->typeArguments.empty() && !generic->nameParts.empty()) {
+                    auto tmpl = m_genericTemplates.find(generic->nameParts.back());
+                    if (tmpl == m_genericTemplates.end() || !tmpl->second)
+                        break;
+                    NamedType* next = dynamic_cast<NamedType*>(tmpl->second->baseType.get());
+                    if (next && next->typeArguments.empty() && !next->nameParts.empty()) {
+                        auto plain = nodeByName.find(next->nameParts.back());
+                        if (plain != nodeByName.end())
+                            populate(plain->second);
+                        break;
+                    }
+                    if (!next && !tmpl->second->baseName.empty()) {
+                        auto plain = nodeByName.find(tmpl->second->baseName.back());
+                        if (plain != nodeByName.end())
+                            populate(plain->second);
+                        break;
+                    }
+                    generic = next;
+                }
             }
             // Wire base (non-generic class)
             if (clsNode->baseType) {
